@@ -696,11 +696,9 @@ end Asynkit.Gen
 
 # ---- the whitelist ---------------------------------------------------------------------------
 
-def generate(src: Path) -> dict:
+def unit_prientry(src: Path) -> dict:
     tools = ast.parse((src / "asynkit/tools.py").read_text())
-    prio = ast.parse((src / "asynkit/experimental/priority.py").read_text())
     files = {}
-
     # tools.PriEntry.__lt__
     fn = find_func(tools, "PriEntry", "__lt__")
     other = fn.args.args[1].arg
@@ -713,7 +711,12 @@ def priEntryLt {{π : Type}} (plt : π → π → Bool) (self other : Entry π) 
 {pure_body(tr, body_no_doc(fn))}
 end Asynkit.Gen
 """
+    return files
 
+
+def unit_priority(src: Path) -> dict:
+    prio = ast.parse((src / "asynkit/experimental/priority.py").read_text())
+    files = {}
     # priority.PriorityValue.priority / __lt__
     pv_fields = {"base_priority": ("base", "rat"), "priority_boost": ("boost", "rat"),
                  "priority_class": ("cls", "nat"), "inserted_at": ("insertedAt", "nat")}
@@ -730,6 +733,9 @@ end Asynkit.Gen
               "random": ("rand", "rat")}, self_var="q")
     # PosPriorityQueue.update_counters
     fn4 = find_func(prio, "PosPriorityQueue", "update_counters")
+    top = body_no_doc(fn4)
+    if len(top) != 1 or not isinstance(top[0], ast.If) or not isinstance(top[0].test, ast.Name):
+        raise Unsupported("update_counters is no longer `if inserted: ... else: ...`")
     ctr_fields = {"n_inserted": ("nIns", "nat"), "n_removed": ("nRem", "nat"),
                   "last_maintenance": ("lastMaint", "nat"), "_pq": ("len", "lenof")}
     tr4 = Tr(ctr_fields, {fn4.args.args[1].arg: ("inserted", "bool")}, self_var="s")
@@ -768,6 +774,12 @@ def updateCounters (s : Ctr) (inserted : Bool) : Ctr :=
 {state_body(Tr(ctr_fields, {fn4.args.args[1].arg: ("inserted", "bool")}, self_var="s"), body_no_doc(fn4)[0].orelse, "s", {"n_inserted": "nIns", "n_removed": "nRem", "last_maintenance": "lastMaint"}, {"do_maintenance": "maint"}, "    ")}
 end Asynkit.Gen
 """
+    return files
+
+
+def unit_lockcov(src: Path) -> dict:
+    prio = ast.parse((src / "asynkit/experimental/priority.py").read_text())
+    files = {}
     dflt = ast.parse((src / "asynkit/loop/default.py").read_text())
     cov = lock_coverage(prio)
     prims = deque_primitives(dflt)
@@ -784,27 +796,61 @@ end Asynkit.Gen
         "def dequePrimitives : List (String × List String) :=\n  ["
         + ", ".join(f"({lean_str(n)}, [" + ", ".join(lean_str(p) for p in ps) + "])" for n, ps in prims) + "]\n"
         "end Asynkit.Gen\n")
-    files["Sched.lean"] = gen_sched(src)
-    files.update(__import__("pq2lean").generate(src))      # tools.PriorityQueue, statement level (Gen/PQ.lean)
-    files.update(__import__("pospq2lean").generate(src))   # Gen/PosPQ.lean: the whole PosPriorityQueue class
-    files.update(__import__("interrupt2lean").generate(src))   # Gen/Interrupt.lean: task_throw, task_interrupt prefix
-    files.update(__import__("sched2lean").generate(src))   # Gen/SchedOps.lean (an Unsupported there is a KeyError)
-    files.update(__import__("corostate2lean").generate(src))   # C20: coroutine state helpers
-    files.update(__import__("ctxresume2lean").generate(src))   # C04: which context a segment runs in
-    top = body_no_doc(fn4)
-    if len(top) != 1 or not isinstance(top[0], ast.If) or not isinstance(top[0].test, ast.Name):
-        raise Unsupported("update_counters is no longer `if inserted: ... else: ...`")
     return files
+
+
+# ---- units: each regenerates its own files; a unit that cannot translate poisons only those ------
+
+UNITS = [
+    ("PriEntry.__lt__", ["PriEntry.lean"], unit_prientry),
+    ("PriorityValue / compute_priority_boost / update_counters", ["Priority.lean"], unit_priority),
+    ("lock coverage, deque primitives", ["LockCoverage.lean"], unit_lockcov),
+    ("deque_pop, queue_find, call_pos, task predicates", ["Sched.lean"], lambda src: {"Sched.lean": gen_sched(src)}),
+    ("tools.PriorityQueue", ["PQ.lean"], lambda src: __import__("pq2lean").generate(src)),
+    ("PosPriorityQueue", ["PosPQ.lean"], lambda src: __import__("pospq2lean").generate(src)),
+    ("task_throw, task_interrupt prefix", ["Interrupt.lean"], lambda src: __import__("interrupt2lean").generate(src)),
+    ("scheduling ops", ["SchedOps.lean"], lambda src: __import__("sched2lean").generate(src)),
+    ("coroutine state helpers", ["CoroState.lean"], lambda src: __import__("corostate2lean").generate(src)),
+    ("context selection", ["CtxResume.lean"], lambda src: __import__("ctxresume2lean").generate(src)),
+]
+
+
+def poison(unit: str, why: str) -> str:
+    msg = why.replace("-/", "- /").replace("\n", " ")[:1500]
+    return ("-- GENERATED by translator/py2lean.py — TRANSLATION FAILED for: " + unit + "\n"
+            "/- " + msg + " -/\n"
+            "namespace Asynkit.Gen\n"
+            "theorem translation_failed : False := by\n"
+            "  exact translation_of_this_unit_failed_see_comment_above\n"
+            "end Asynkit.Gen\n")
+
+
+def generate(src: Path):
+    """-> (files, failures).  A unit that leaves the supported subset (or whose source cannot be read)
+    gets its files replaced by one that does not compile and carries the message, so that only the
+    proof obligations that depend on that unit break."""
+    files, failures = {}, []
+    for unit, names, fn in UNITS:
+        try:
+            got = fn(src)
+            missing = [n for n in names if n not in got]
+            if missing:
+                raise Unsupported(f"unit produced no {missing}")
+            files.update(got)
+        except (Exception, SystemExit) as e:   # noqa: BLE001
+            why = f"{type(e).__name__}: {e}"
+            failures.append((unit, why))
+            for n in names:
+                files[n] = poison(unit, why)
+    return files, failures
 
 
 def main():
     src, out = Path(sys.argv[1]), Path(sys.argv[2])
     out.mkdir(parents=True, exist_ok=True)
-    try:
-        files = generate(src)
-    except (Unsupported, SyntaxError, OSError, IndexError, KeyError) as e:
-        print(f"py2lean: cannot translate: {type(e).__name__}: {e}")
-        return 1
+    files, failures = generate(src)
+    for unit, why in failures:
+        print(f"py2lean: CANNOT TRANSLATE [{unit}]: {why}")
     for name, text in files.items():
         p = out / name
         if not p.exists() or p.read_text() != text:
@@ -813,7 +859,7 @@ def main():
     for p in out.glob("*.lean"):
         if p.name not in files:
             p.unlink()
-    print("py2lean: ok")
+    print("py2lean: ok" if not failures else f"py2lean: {len(failures)} unit(s) not translated (their Gen files do not compile)")
     return 0
 
 
